@@ -843,6 +843,66 @@ func init() {
 				c.Sample(M{"schema": clip(string(content), 300), "options_compared": []string{"only-models", "tags", "capitalization", "title", "root-type", "extra-imports"}})
 			}
 		}
+		// the naming options on a schema that refers to WHOLE FILES (the referenced root with or without a `type`, used once,
+		// twice, or folded into an allOf and used again): the referenced file's root keeps the name ITS title / file name
+		// gives it; only identifiers change
+		for vi, variant := range []string{"typed-once", "untyped-once", "untyped-twice", "typed-allOf-and-again", "untyped-allOf-and-again"} {
+			b := sgen.M{"$id": "https://example.com/b", "title": "Beta", "properties": sgen.M{"x": sgen.M{"type": "string"}, "y": sgen.M{"type": "integer", "minimum": 1}}}
+			if strings.HasPrefix(variant, "typed") {
+				b["type"] = "object"
+			}
+			props := sgen.M{"b": sgen.M{"$ref": "b.json"}, "n": sgen.M{"type": "string"}}
+			if strings.HasSuffix(variant, "twice") {
+				props["b2"] = sgen.M{"$ref": "b.json"}
+			}
+			if strings.HasSuffix(variant, "again") {
+				props["m"] = sgen.M{"allOf": []any{sgen.M{"$ref": "b.json"}, sgen.M{"type": "object", "properties": sgen.M{"extra": sgen.M{"type": "boolean"}}}}}
+				props["z"] = sgen.M{"$ref": "b.json"}
+			}
+			a := core.MustJSON(sgen.M{"$id": "https://example.com/a", "title": "Alpha", "type": "object", "properties": props})
+			dir := filepath.Join(tmp, fmt.Sprintf("files%d", vi))
+			_ = os.MkdirAll(dir, 0o755)
+			_ = os.WriteFile(filepath.Join(dir, "b.json"), core.MustJSON(b), 0o644)
+			base := core.DefaultCfg()
+			full := genSrc(dir, "a.json", a, base, "https://example.com/a")
+			if strings.HasPrefix(full, "ERR") || strings.HasPrefix(full, "PANIC") {
+				c.Count("c16", "whole-file references: base run fails ("+variant+")")
+				continue
+			}
+			for _, nm := range []string{"title", "root-type", "title+root-type", "capitalization"} {
+				nc := base
+				switch nm {
+				case "title":
+					nc.StructNameFromTitle = true
+				case "root-type":
+					nc.RootType = "CustomRoot"
+				case "title+root-type":
+					nc.StructNameFromTitle, nc.RootType = true, "CustomRoot"
+				default:
+					nc.Caps = []string{"JSON"}
+				}
+				ncOut := genSrc(dir, "a.json", a, nc, "https://example.com/a")
+				c.Eval("whole-file-refs|" + variant + "|" + nm)
+				bad := ""
+				switch {
+				case strings.HasPrefix(ncOut, "ERR") || strings.HasPrefix(ncOut, "PANIC"):
+					bad = "generation fails with the option"
+				case countDecls(ncOut) != countDecls(full):
+					bad = "the number of declarations changes"
+				case declSet(eraseTags(ncOut), nil, true) != declSet(eraseTags(full), nil, true):
+					bad = "the outputs differ in more than identifiers"
+				case eraseIdentsInTags(ncOut) != eraseIdentsInTags(full):
+					bad = "struct tags changed"
+				}
+				if bad != "" {
+					fails++
+					if fails <= 3 {
+						c.Fail("oracle", "option --"+nm+" on a schema referring to a whole file ("+variant+"): "+bad, M{"kind": "relational", "option": nm, "schema": string(a), "files": M{"b.json": string(core.MustJSON(b))}, "cfg_a": base, "cfg_b": nc, "output_a": clip(full, 6000), "output_b": clip(ncOut, 6000)}, false)
+					}
+				}
+			}
+			c.Programs += 5
+		}
 		c.Programs += n
 		res := runCases(c, behav)
 		for i := 0; i+1 < len(res); i += 2 {
